@@ -4,12 +4,15 @@ Model/Print.lean, Model/Quote.lean (+ the generated IsPrint table) and the indep
 spec Spec/Rfc8259.lean (RFC 8259 parser) / Spec/JsonData.lean (domain, denotation).
 Tie: channel `json` — real (json v) bytes vs model, Go's encoding/json as a second judge of
 well-formedness vs the Rfc8259 parser vs the denotation, (unjson (json v)) and
-(unmsgpack (msgpack v)) vs the value, printer and strconv.Quote/QuoteRune vs their models."""
+(unmsgpack (msgpack v)) vs the value, printer and strconv.Quote/QuoteRune vs their models;
+`hist` ops: HISTORIES of encode/decode steps on long-lived interpreters (all encoded results kept and
+decoded later in another order; decoded results mutated; the holder overwriting its bytes) vs the
+history law of Spec/JsonHistory.lean (an encoded result is a value)."""
 import vcommon as V
 
 META = dict(
-    text="Lean 4 theorems (Props/C11.lean) prove for every nested value of the property's domain, at any depth and for all string contents (any sequence of Unicode scalar values), that the model of SexpToJson produces a text which the RFC 8259 parser of Spec/Rfc8259.lean accepts and which denotes exactly that value (type name, members in field order, zKeyOrder), that decoding it again (sorted map walk, MakeHash, SetHashKeyOrder) gives the value back with the same record type names and the same key order at every level, numbers compared by value, and the same for msgpack under a stated codec round-trip law; quote_is_json_string characterises exactly for which byte strings Go's strconv.Quote output is a JSON string literal (over all 0x110000 code points through the IsPrint table regenerated from the standard library), which is why the pre-fix encoder was wrong. Unit tests only encode three records of plain ASCII words.",
-    note="Trusted: Lean kernel; axioms propext/Classical.choice/Quot.sound; the ugorji codec is modelled by the RFC 8259 parser plus its observable number/map choices, strconv.FormatFloat/ParseFloat enter as a per-value parameter with a shape law and a parse-back law (sampled, not proved); msgpack is a corollary under the codec law decode(encode g) = g (sampled through the channel). The models are hand-written and tied to zygo/jsonmsgp.go, expressions.go, hashutils.go by the `json` correspondence (exhaustive single-byte strings, every IsPrint transition point, boundary numbers, key-kind x value-kind grid, key-order permutations, random nested values), which is differential testing. Holds for the tree with fixes C11-01 (JSON string quoting) and C11-02 (nil is null) applied.",
+    text="Lean 4 theorems (Props/C11.lean) prove for every nested value of the property's domain, at any depth and for all string contents (any sequence of Unicode scalar values), that the model of SexpToJson produces a text which the RFC 8259 parser of Spec/Rfc8259.lean accepts and which denotes exactly that value (type name, members in field order, zKeyOrder), that decoding it again (sorted map walk, MakeHash, SetHashKeyOrder) gives the value back with the same record type names and the same key order at every level, numbers compared by value, and the same for msgpack under a stated codec round-trip law; quote_is_json_string characterises exactly for which byte strings Go's strconv.Quote output is a JSON string literal (over all 0x110000 code points through the IsPrint table regenerated from the standard library), which is why the pre-fix encoder was wrong. The round trip is stated for HISTORIES, not only for the one-expression form: Spec/JsonHistory.lean states for any implementation seen as a transition system that an encoded result is a value (EncodeResultsStable: what the holder of an encode result reads does not change, whatever is encoded or decoded afterwards; HistoryRoundTrip: decoding a kept result gives the value at every later step); the model (an append-only store of immutable encode results) is proved to satisfy both for all histories (encode_results_stable, history_roundtrip_partial, history_roundtrip_string), to answer every history of the op language exactly as the reference machine does (history_model_eq_spec, no bound on values or steps), and mutations of one decoded result leave every other one alone (decode_results_independent); a one-shared-buffer machine is proved to violate the law (encode_results_stable_sharedbuf_counterexample). Unit tests only encode three records of plain ASCII words and decode each at once.",
+    note="Trusted: Lean kernel; axioms propext/Classical.choice/Quot.sound; the ugorji codec is modelled by the RFC 8259 parser plus its observable number/map choices, strconv.FormatFloat/ParseFloat enter as a per-value parameter with a shape law and a parse-back law (sampled, not proved); msgpack is a corollary under the codec law decode(encode g) = g (sampled through the channel). The models are hand-written and tied to zygo/jsonmsgp.go, expressions.go, hashutils.go by the `json` correspondence (exhaustive single-byte strings, every IsPrint transition point, boundary numbers, key-kind x value-kind grid, key-order permutations, random nested values; histories of 2-6 encode/decode steps with all results kept: script builtins, the exported Go functions, two interleaved interpreters, successive encodings shorter/equal/longer, decoded results mutated with aset/hset, input bytes overwritten after decoding), which is differential testing. The store model's premise (no package-level variable is written by the encode/decode path) is C20's regenerated fact globals_writes_allowed, not re-proved here. GoToJson's text is not modelled: only that it is JSON and that its bytes stay what they were. Holds for the tree with fixes C11-01 (JSON string quoting) and C11-02 (nil is null) applied.",
     technique="Lean 4 proof over an executable model of the encoder/decoder and an RFC 8259 parser spec + model/implementation correspondence with encoding/json as second judge",
     design_ref="DESIGN.md §7 C11",
 )
@@ -23,6 +26,7 @@ def run(rep):
         "strconv.FormatFloat / ParseFloat are parameters: each float of an op carries the text the standard library printed; shape law (finite floats print as [-]digits[.digits][e+-digits]) and parse-back law are hypotheses of the theorems, sampled by this run",
         "msgpack: codec law decode(encode g) = g for Go values built from string/int64/float64/bool/nil/[]interface{}/map[string]interface{} is a hypothesis (msgpack_roundtrip), sampled by the `mp` ops",
         "domain: strings/symbols/type names are valid UTF-8, floats finite, keys symbols or strings; uint64, chars, NaN/Inf, lists are outside the property's domain (modelled and compared, not judged); round trip additionally needs pairwise distinct symbol keys other than Atype/zKeyOrder",
+        "histories: the model keeps every encode result as an immutable cell of an append-only store because no package-level variable is written on the encode/decode path (C20: Generated/Globals.lean, globals_writes_allowed); history_model_eq_spec has the one-step JSON round trip of the values and the msgpack codec law as hypotheses; values of a history are built afresh for every encode step (a cache keyed by the identity of the ORIGINAL value is not exercised); GoToJson's text is judged only for being JSON and for staying what it was",
         "Model/Json.lean, Model/Print.lean, Model/Quote.lean are hand-written; tied to the Go code by the `json` correspondence only; Generated/IsPrint.lean is computed by the Go standard library inside zyx",
     ]
     if not (prep["ok_drv"] and prep["ok_harness"]):
